@@ -690,4 +690,372 @@ theorem inv_runFrom {s : State} (cfg : Cfg) (h : Inv s) (evs : List Ev) : Inv (r
 
 theorem inv_run (cfg : Cfg) (evs : List Ev) : Inv (run cfg evs) := inv_runFrom cfg inv_init evs
 
+/-! ## C14 statements -/
+
+/-- **no send on a closed channel, no second close, no send that blocks** — in every reachable state, for every
+finite event list and both code variants -/
+theorem c14_http_no_panic_no_block (cfg : Cfg) (evs : List Ev) :
+    (run cfg evs).panicked = false ∧ (run cfg evs).blockedSend = false :=
+  ⟨(inv_run cfg evs).noPanic, (inv_run cfg evs).noBlock⟩
+
+/-- the reason: whenever the watcher is about to execute `waiter <- b`, that waiter's channel exists, is open and its
+one buffer slot is free (each channel is registered once and swapped out of `pending` before the first send) -/
+theorem c14_http_send_safe (cfg : Cfg) (evs : List Ev) (i : Nat) (rest : List Nat)
+    (hl : (run cfg evs).wlocal = i :: rest) :
+    ((run cfg evs).chans i).made = true ∧ ((run cfg evs).chans i).closed = false ∧ ((run cfg evs).chans i).buf = none := by
+  have h := inv_run cfg evs
+  have hmem : i ∈ (run cfg evs).pending ++ (run cfg evs).wlocal := by simp [hl]
+  obtain ⟨hwait, hbn⟩ := h.reg i hmem
+  have hneed : (((run cfg evs).reqs i).pc).needsChan = true := by
+    cases hq : ((run cfg evs).reqs i).pc <;> simp_all [Pc.waiting, Pc.needsChan]
+  exact ⟨(h.chanOpen i hneed).1, (h.chanOpen i hneed).2, hbn⟩
+
+/-- **the pending list never holds a closed channel** (nor one with a value in it, nor the same channel twice), and
+its owner is still blocked in its `select` or on its way to deregister -/
+theorem c14_http_pending_open (cfg : Cfg) (evs : List Ev) :
+    (run cfg evs).pending.Nodup ∧
+    ∀ id ∈ (run cfg evs).pending,
+      ((run cfg evs).chans id).made = true ∧ ((run cfg evs).chans id).closed = false ∧ ((run cfg evs).chans id).buf = none ∧
+      (((run cfg evs).reqs id).pc = .parked ∨ ((run cfg evs).reqs id).pc = .cancelLock) := by
+  have h := inv_run cfg evs
+  refine ⟨(List.nodup_append.mp h.nodup).1, ?_⟩
+  intro id hid
+  obtain ⟨hwait, hbn⟩ := h.reg id (List.mem_append.mpr (Or.inl hid))
+  have hpc : ((run cfg evs).reqs id).pc = .parked ∨ ((run cfg evs).reqs id).pc = .cancelLock := by
+    cases hq : ((run cfg evs).reqs id).pc <;> simp_all [Pc.waiting]
+  have hneed : (((run cfg evs).reqs id).pc).needsChan = true := by
+    rcases hpc with e | e <;> simp [e, Pc.needsChan]
+  exact ⟨(h.chanOpen id hneed).1, (h.chanOpen id hneed).2, hbn, hpc⟩
+
+/-- a channel is closed only by its own request, as the last thing it does -/
+theorem c14_http_closed_only_when_done (cfg : Cfg) (evs : List Ev) (id : Nat)
+    (hc : ((run cfg evs).chans id).closed = true) : ∃ a, ((run cfg evs).reqs id).pc = .done a := by
+  have := (inv_run cfg evs).closedDone id hc
+  cases hq : ((run cfg evs).reqs id).pc <;> simp_all [Pc.isDone]
+
+/-- **the lock is held exactly inside a critical section**: by the watcher iff it is in its notification loop, by
+request `id` iff it is between its `Lock` and its deferred `Unlock` of the cancellation branch; otherwise it is free -/
+theorem c14_http_lock_discipline (cfg : Cfg) (evs : List Ev) :
+    let s := run cfg evs
+    (s.holder = .watcher ↔ s.wpc = .notifying) ∧
+    (∀ id, s.holder = .req id ↔ ((s.reqs id).pc = .cancelDrain ∨ (s.reqs id).pc = .cancelUnlock)) ∧
+    (s.holder = .free ↔ (s.wpc ≠ .notifying ∧ ∀ id, (s.reqs id).pc ≠ .cancelDrain ∧ (s.reqs id).pc ≠ .cancelUnlock)) := by
+  intro s
+  have h : Inv s := inv_run cfg evs
+  have hcrit : ∀ id, s.holder = .req id ↔ ((s.reqs id).pc = .cancelDrain ∨ (s.reqs id).pc = .cancelUnlock) := by
+    intro id
+    rw [← h.crit id]
+    cases hq : (s.reqs id).pc <;> simp [Pc.inCrit]
+  refine ⟨h.wfree, hcrit, ?_⟩
+  constructor
+  · intro hf
+    refine ⟨fun hn => by have := h.wfree.mpr hn; simp [hf] at this, fun id => ?_⟩
+    have hne : s.holder ≠ .req id := by simp [hf]
+    have := fun e => hne ((hcrit id).mpr e)
+    exact ⟨fun e => this (Or.inl e), fun e => this (Or.inr e)⟩
+  · intro ⟨hn, hall⟩
+    cases hh : s.holder with
+    | free => rfl
+    | watcher => exact absurd (h.wfree.mp hh) hn
+    | req j => rcases (hcrit j).mp hh with e | e
+               · exact absurd e (hall j).1
+               · exact absurd e (hall j).2
+
+/-- **`latestRound` is reset on a stream failure**, in both variants, and while it is 0 no request parks -/
+theorem c14_http_latest_reset (cfg : Cfg) (s : State) (hw : s.wpc = .gotClosed) (hf : s.holder = .free) :
+    (wLock cfg s).latest = 0 ∧ ∀ r, blockGuard (wLock cfg s).latest r = false := by
+  have : (wLock cfg s).latest = 0 := by
+    unfold wLock; simp [hf, hw]; split <;> rfl
+  exact ⟨this, fun r => by simp [this, blockGuard]⟩
+
+/-! ## progress: every critical section ends after a bounded number of its owner's own steps -/
+
+theorem wSend_eq {s : State} (h : Inv s) (hw : s.wpc = .notifying) {i : Nat} {rest : List Nat} (hl : s.wlocal = i :: rest) :
+    wSend s = ({ s with wlocal := rest }).setChan i { s.chans i with buf := some s.wb } := by
+  have hmem : i ∈ s.pending ++ s.wlocal := by simp [hl]
+  obtain ⟨hwait, hbn⟩ := h.reg i hmem
+  have hneed : (s.reqs i).pc.needsChan = true := by
+    cases hq : (s.reqs i).pc <;> simp_all [Pc.waiting, Pc.needsChan]
+  obtain ⟨_, hncl⟩ := h.chanOpen i hneed
+  unfold wSend
+  simp [hw, hl, hncl, hbn]
+
+/-- what the notification loop does, run to its end: every waiter of the local list has the payload in its channel,
+nothing else changed -/
+theorem wSends_spec (cfg : Cfg) : ∀ (n : Nat) {s : State}, Inv s → s.wpc = .notifying → s.wlocal.length = n →
+    let s' := runFrom cfg s (List.replicate n .wSend)
+    s'.wlocal = [] ∧ s'.wpc = .notifying ∧ s'.holder = s.holder ∧ s'.pending = s.pending ∧ s'.reqs = s.reqs ∧
+    s'.wthenBackoff = s.wthenBackoff ∧ s'.latest = s.latest ∧ s'.wb = s.wb ∧
+    (∀ id ∈ s.wlocal, (s'.chans id).buf = some s.wb) ∧ (∀ id, id ∉ s.wlocal → s'.chans id = s.chans id) := by
+  intro n
+  induction n with
+  | zero =>
+    intro s _ hw hl
+    have : s.wlocal = [] := List.length_eq_zero_iff.mp hl
+    simp [runFrom, this, hw]
+  | succ n ih =>
+    intro s h hw hl
+    match hq : s.wlocal, hl with
+    | i :: rest, hl' =>
+      have heq := wSend_eq h hw hq
+      have h1 : Inv (wSend s) := inv_wSend h
+      have hstep : runFrom cfg s (List.replicate (n + 1) .wSend) = runFrom cfg (wSend s) (List.replicate n .wSend) := by
+        simp [runFrom, List.replicate_succ, step]
+      have hw1 : (wSend s).wpc = .notifying := by rw [heq]; simpa [State.setChan] using hw
+      have hl1 : (wSend s).wlocal = rest := by rw [heq]; simp [State.setChan]
+      have hlen : (wSend s).wlocal.length = n := by rw [hl1]; simpa using hl'
+      have := ih h1 hw1 hlen
+      simp only [] at this ⊢
+      rw [hstep]
+      obtain ⟨a, b, c, d, e, f, g, k, m, o⟩ := this
+      have hnd : i ∉ rest := by
+        have := List.nodup_append.mp h.nodup
+        rw [hq] at this
+        exact (List.nodup_cons.mp this.2.1).1
+      have hwb : (wSend s).wb = s.wb := by rw [heq]; simp [State.setChan]
+      refine ⟨a, b, by rw [c, heq]; simp [State.setChan], by rw [d, heq]; simp [State.setChan],
+              by rw [e, heq]; simp [State.setChan], by rw [f, heq]; simp [State.setChan],
+              by rw [g, heq]; simp [State.setChan], by rw [k, hwb], ?_, ?_⟩
+      · intro id hid
+        rcases List.mem_cons.mp hid with e' | e'
+        · subst e'
+          rw [o id (by rw [hl1]; exact hnd), heq]; simp [State.setChan]
+        · rw [m id (by rw [hl1]; exact e'), hwb]
+      · intro id hid
+        have hne : id ≠ i := fun e' => hid (e' ▸ List.mem_cons_self)
+        have hnr : id ∉ rest := fun e' => hid (List.mem_cons_of_mem _ e')
+        rw [o id (by rw [hl1]; exact hnr), heq]; simp [State.setChan, hne]
+
+/-- the steps that remain for whoever holds the lock -/
+def releaseLock (s : State) : List Ev :=
+  match s.holder with
+  | .free => []
+  | .watcher => List.replicate s.wlocal.length .wSend ++ [.wUnlock]
+  | .req j => [.drain j, .cUnlock j]
+
+theorem runFrom_append (cfg : Cfg) (s : State) (a b : List Ev) :
+    runFrom cfg s (a ++ b) = runFrom cfg (runFrom cfg s a) b := by simp [runFrom, List.foldl_append]
+
+/-- **the lock is free after every completed critical section**: from every reachable state, at most
+`len(pending)+1` further steps of the current holder (none of which can block) release it, and they touch no
+request outside a critical section -/
+theorem releaseLock_spec (cfg : Cfg) {s : State} (h : Inv s) :
+    (runFrom cfg s (releaseLock s)).holder = .free ∧
+    (∀ id, (s.reqs id).pc.inCrit = false → (runFrom cfg s (releaseLock s)).reqs id = s.reqs id) ∧
+    (runFrom cfg s (releaseLock s)).pending = s.pending ∧
+    (releaseLock s).length ≤ s.wlocal.length + 2 := by
+  unfold releaseLock
+  cases hh : s.holder with
+  | free => simp [runFrom, hh]
+  | watcher =>
+    have hw := h.wfree.mp hh
+    obtain ⟨a, b, c, d, e, _⟩ := wSends_spec cfg s.wlocal.length h hw rfl
+    simp only [runFrom_append]
+    generalize runFrom cfg s (List.replicate s.wlocal.length Ev.wSend) = s1 at a b c d e
+    have hu : runFrom cfg s1 [Ev.wUnlock] = wUnlock s1 := rfl
+    rw [hu]
+    refine ⟨?_, ?_, ?_, by simp⟩
+    · simp [wUnlock, a, b]
+    · intro id _; simp [wUnlock, a, b, e]
+    · simp [wUnlock, a, b, d]
+  | req j =>
+    have hc := (h.crit j).mpr hh
+    have hpc : (s.reqs j).pc = .cancelDrain ∨ (s.reqs j).pc = .cancelUnlock := by
+      cases hq : (s.reqs j).pc <;> simp_all [Pc.inCrit]
+    refine ⟨?_, ?_, ?_, by simp⟩
+    · rcases hpc with e | e <;> simp [runFrom, step, drain, cUnlock, e, State.setPc, State.setReq, State.setChan]
+    · intro id hid
+      have hne : id ≠ j := fun e => by subst e; simp [hc] at hid
+      rcases hpc with e | e <;> simp [runFrom, step, drain, cUnlock, e, State.setPc, State.setReq, State.setChan, hne]
+    · rcases hpc with e | e <;> simp [runFrom, step, drain, cUnlock, e, State.setPc, State.setReq, State.setChan]
+
+theorem runFrom_cons (cfg : Cfg) (s : State) (e : Ev) (es : List Ev) :
+    runFrom cfg s (e :: es) = runFrom cfg (step cfg s e) es := rfl
+theorem runFrom_nil (cfg : Cfg) (s : State) : runFrom cfg s [] = s := rfl
+
+/-- the schedule that ends a parked request whose context is over: whoever holds the lock finishes its critical
+section, then the request's own five steps -/
+def finishCancel (s : State) (id : Nat) : List Ev :=
+  releaseLock s ++ [.wake id, .dereg id, .drain id, .cUnlock id, .close id]
+
+/-- **a parked waiter whose context ends is deregistered and answered (500) in bounded time**: from every reachable
+state, at most `len(pending)+7` steps — none of which can block — take it to its end with the lock free again, its
+channel gone from `pending` and closed only after that -/
+theorem c14_http_cancel_completes (cfg : Cfg) (evs : List Ev) (id : Nat)
+    (hp : ((run cfg evs).reqs id).pc = .parked) (hc : ((run cfg evs).reqs id).cancelled = true) :
+    let s' := runFrom cfg (run cfg evs) (finishCancel (run cfg evs) id)
+    (s'.reqs id).pc = .done ⟨500, none⟩ ∧ s'.holder = .free ∧ id ∉ s'.pending ∧ (s'.chans id).closed = true ∧
+    s'.panicked = false ∧ (finishCancel (run cfg evs) id).length ≤ (run cfg evs).wlocal.length + 7 := by
+  intro s'
+  have h := inv_run cfg evs
+  obtain ⟨hf, hr, hpend, hlen⟩ := releaseLock_spec cfg h
+  have h1 : Inv (runFrom cfg (run cfg evs) (releaseLock (run cfg evs))) := inv_runFrom cfg h _
+  have hnp : s'.panicked = false := (inv_runFrom cfg h _).noPanic
+  have hr1 := hr id (by simp [hp, Pc.inCrit])
+  have hs' : s' = runFrom cfg (runFrom cfg (run cfg evs) (releaseLock (run cfg evs)))
+      [.wake id, .dereg id, .drain id, .cUnlock id, .close id] := by
+    simp only [s', finishCancel, runFrom_append]
+  generalize runFrom cfg (run cfg evs) (releaseLock (run cfg evs)) = s1 at hf hr1 h1 hs' hpend
+  have hp1 : (s1.reqs id).pc = .parked := by rw [hr1]; exact hp
+  have hc1 : (s1.reqs id).cancelled = true := by rw [hr1]; exact hc
+  obtain ⟨hmade, hncl⟩ := h1.chanOpen id (by simp [hp1, Pc.needsChan])
+  have hwl := h1.wlocal_nil_of_free hf
+  have hnd : s1.pending.Nodup := by have := h1.nodup; simpa [hwl] using this
+  refine ⟨?_, ?_, ?_, ?_, hnp, ?_⟩
+  · rw [hs']
+    simp [runFrom, step, wake, dereg, drain, cUnlock, closeStep, State.setPc, State.setReq, State.setChan, hp1, hc1, hf,
+      hmade, hncl, publicRandAnswer]
+  · rw [hs']
+    simp [runFrom, step, wake, dereg, drain, cUnlock, closeStep, State.setPc, State.setReq, State.setChan, hp1, hc1, hf,
+      hmade, hncl]
+  · rw [hs']
+    simp [runFrom, step, wake, dereg, drain, cUnlock, closeStep, State.setPc, State.setReq, State.setChan, hp1, hc1, hf,
+      hmade, hncl]
+    exact fun hm => ((hnd.mem_erase_iff).mp hm).1 rfl
+  · rw [hs']
+    simp [runFrom, step, wake, dereg, drain, cUnlock, closeStep, State.setPc, State.setReq, State.setChan, hp1, hc1, hf,
+      hmade, hncl]
+  · simp only [finishCancel, List.length_append, List.length_cons, List.length_nil]; omega
+
+/-- **a delivered round notifies every parked waiter**: from a reachable state in which the watcher sits in its
+`select` and the lock is free, the watcher's own `len(pending)+3` steps hand the payload to every registered waiter
+(none is skipped, none blocks), empty `pending`, record the round and release the lock -/
+theorem c14_http_delivery_notifies_all (cfg : Cfg) (evs : List Ev) (b : Beacon)
+    (hw : (run cfg evs).wpc = .selecting) (hf : (run cfg evs).holder = .free) :
+    let s := run cfg evs
+    let s' := runFrom cfg s ([.wDeliver b, .wLock] ++ List.replicate s.pending.length .wSend ++ [.wUnlock])
+    let p : Payload := if unexpectedRound s.latest b.round then .emptySlice else .json b
+    s'.holder = .free ∧ s'.wpc = .selecting ∧ s'.pending = [] ∧ s'.latest = b.round ∧
+    (∀ id ∈ s.pending, (s'.chans id).buf = some p) ∧ s'.panicked = false ∧ s'.blockedSend = false := by
+  intro s s' p
+  have h : Inv s := inv_run cfg evs
+  have hinv' : Inv s' := inv_runFrom cfg h _
+  let s2 : State := { s with holder := .watcher, latest := b.round, wlocal := s.pending, pending := [], wb := p,
+                             wthenBackoff := false, wpc := .notifying }
+  have e2 : runFrom cfg s [.wDeliver b, .wLock] = s2 := by
+    simp [runFrom, step, wDeliver, wLock, hw, hf, s2, p, s]
+  have h2 : Inv s2 := by rw [← e2]; exact inv_runFrom cfg h _
+  obtain ⟨a, b', c, d, e, f, g, k, m, _⟩ := wSends_spec cfg s.pending.length h2 (by simp [s2]) (by simp [s2])
+  have hs' : s' = wUnlock (runFrom cfg s2 (List.replicate s.pending.length .wSend)) := by
+    simp only [s', runFrom_append, e2]; rfl
+  generalize runFrom cfg s2 (List.replicate s.pending.length .wSend) = s3 at a b' c d e f g k m hs'
+  refine ⟨?_, ?_, ?_, ?_, ?_, hinv'.noPanic, hinv'.noBlock⟩
+  · rw [hs']; simp [wUnlock, a, b']
+  · rw [hs']; simp [wUnlock, a, b', f, s2]
+  · rw [hs']; simp [wUnlock, a, b', d, s2]
+  · rw [hs']; simp [wUnlock, a, b', g, s2]
+  · intro id hid; rw [hs']; simp [wUnlock, a, b']; exact m id (by simpa [s2] using hid)
+
+/-- a waiter that has been handed a payload finishes with its own two steps: it takes the payload, closes its channel,
+and `PublicRand` answers from that payload (as-is code; patched code for a non-empty payload) -/
+theorem c14_http_released_waiter_completes (cfg : Cfg) (evs : List Ev) (id : Nat) (p : Payload)
+    (hp : ((run cfg evs).reqs id).pc = .parked) (hb : ((run cfg evs).chans id).buf = some p)
+    (hv : (cfg.emptyFallsBack && p.isEmpty) = false) :
+    let s' := runFrom cfg (run cfg evs) [.recv id, .close id]
+    (s'.reqs id).pc = .done (publicRandAnswer (.data p)) ∧ (s'.chans id).closed = true ∧ (s'.chans id).buf = none ∧
+    s'.holder = (run cfg evs).holder := by
+  intro s'
+  have h := inv_run cfg evs
+  obtain ⟨hmade, hncl⟩ := h.chanOpen id (by simp [hp, Pc.needsChan])
+  simp [s', runFrom, step, recv, closeStep, hp, hb, hv, State.setPc, State.setReq, State.setChan, hmade, hncl]
+
+theorem wSends_noop (cfg : Cfg) (n : Nat) {s : State} (hw : s.wpc ≠ .notifying) :
+    runFrom cfg s (List.replicate n .wSend) = s := by
+  induction n with
+  | zero => rfl
+  | succ n ih => simp [List.replicate_succ, runFrom_cons, step, wSend, hw, ih]
+
+/-- the steps that bring the watcher back into its `select` (its own steps and its two timers) -/
+def resumeWatcher (s : State) : List Ev :=
+  releaseLock s ++ [.wLock] ++ List.replicate s.pending.length .wSend ++ [.wUnlock, .wBackoffDone, .wResub]
+
+/-- **the service loop is never stopped**: once started, the watcher exists in every reachable state, and from every
+reachable state a bounded number of non-blocking steps (the current lock holder's, the watcher's, its back-off
+timer) puts it back into the `select` on the watch stream with the lock free — whatever requests, cancellations,
+stream values and stream failures came before -/
+theorem c14_http_watch_loop_alive (cfg : Cfg) (evs : List Ev) (hst : (run cfg evs).started = true) :
+    let s' := runFrom cfg (run cfg evs) (resumeWatcher (run cfg evs))
+    (run cfg evs).wpc ≠ .notStarted ∧ s'.wpc = .selecting ∧ s'.holder = .free ∧ s'.panicked = false ∧ s'.blockedSend = false := by
+  intro s'
+  have h := inv_run cfg evs
+  have hinv' : Inv s' := inv_runFrom cfg h _
+  refine ⟨h.post hst, ?_, ?_, hinv'.noPanic, hinv'.noBlock⟩ <;>
+  · obtain ⟨hf, _, hpend, _⟩ := releaseLock_spec cfg h
+    have h1 : Inv (runFrom cfg (run cfg evs) (releaseLock (run cfg evs))) := inv_runFrom cfg h _
+    have hst1 : (runFrom cfg (run cfg evs) (releaseLock (run cfg evs))).wpc ≠ .notStarted := by
+      apply h1.post
+      cases hq : (runFrom cfg (run cfg evs) (releaseLock (run cfg evs))).started with
+      | true => rfl
+      | false =>
+        -- `started` never goes back to false: releaseLock contains no step that touches it
+        exfalso
+        have hpre := (h1.pre hq).1
+        unfold releaseLock at hpre hq
+        cases hh : (run cfg evs).holder with
+        | free => simp [hh, runFrom_nil] at hq; simp [hst] at hq
+        | watcher =>
+          have hw := h.wfree.mp hh
+          obtain ⟨a, b, _⟩ := wSends_spec cfg (run cfg evs).wlocal.length h hw rfl
+          simp only [hh, runFrom_append] at hpre
+          generalize runFrom cfg (run cfg evs) (List.replicate (run cfg evs).wlocal.length Ev.wSend) = s1 at a b hpre
+          have hu : runFrom cfg s1 [Ev.wUnlock] = wUnlock s1 := rfl
+          rw [hu] at hpre
+          simp [wUnlock, a, b] at hpre
+          split at hpre <;> simp at hpre
+        | req j =>
+          have hc := (h.crit j).mpr hh
+          simp only [hh] at hpre
+          have hpc : ((run cfg evs).reqs j).pc = .cancelDrain ∨ ((run cfg evs).reqs j).pc = .cancelUnlock := by
+            cases hq : ((run cfg evs).reqs j).pc <;> simp_all [Pc.inCrit]
+          have := h.post hst
+          rcases hpc with e | e <;>
+            simp [runFrom, step, drain, cUnlock, e, State.setPc, State.setReq, State.setChan] at hpre <;> exact this hpre
+    have hs' : s' = runFrom cfg (runFrom cfg (run cfg evs) (releaseLock (run cfg evs)))
+        ([.wLock] ++ List.replicate (run cfg evs).pending.length .wSend ++ [.wUnlock, .wBackoffDone, .wResub]) := by
+      simp only [s', resumeWatcher, runFrom_append, List.append_assoc]
+    rw [← hpend] at hs'
+    generalize runFrom cfg (run cfg evs) (releaseLock (run cfg evs)) = s1 at hf h1 hs' hst1
+    have hnn : s1.wpc ≠ .notifying := fun e => by have := h1.wfree.mpr e; simp [hf] at this
+    rw [hs']
+    simp only [runFrom_append]
+    have hl : runFrom cfg s1 [.wLock] = wLock cfg s1 := rfl
+    rw [hl]
+    cases hq : s1.wpc with
+    | notStarted => exact absurd hq hst1
+    | notifying => exact absurd hq hnn
+    | selecting =>
+      have e1 : wLock cfg s1 = s1 := by simp [wLock, hf, hq]
+      rw [e1, wSends_noop cfg _ hnn]
+      simp [runFrom, step, wUnlock, wBackoffDone, wResub, hq, hf]
+    | backoff =>
+      have e1 : wLock cfg s1 = s1 := by simp [wLock, hf, hq]
+      rw [e1, wSends_noop cfg _ hnn]
+      simp [runFrom, step, wUnlock, wBackoffDone, wResub, hq, hf]
+    | returned =>
+      have e1 : wLock cfg s1 = s1 := by simp [wLock, hf, hq]
+      rw [e1, wSends_noop cfg _ hnn]
+      simp [runFrom, step, wUnlock, wBackoffDone, wResub, hq, hf]
+    | gotNext n =>
+      have h2 : Inv (wLock cfg s1) := inv_wLock cfg h1
+      have hw2 : (wLock cfg s1).wpc = .notifying := by simp [wLock, hf, hq]
+      have hl2 : (wLock cfg s1).wlocal.length = s1.pending.length := by simp [wLock, hf, hq]
+      have hb2 : (wLock cfg s1).wthenBackoff = false := by simp [wLock, hf, hq]
+      obtain ⟨a, b, c, d, e, f, _⟩ := wSends_spec cfg s1.pending.length h2 hw2 hl2
+      generalize runFrom cfg (wLock cfg s1) (List.replicate s1.pending.length .wSend) = s3 at a b c d e f
+      simp [runFrom, step, wUnlock, wBackoffDone, wResub, a, b, f, hb2]
+    | gotClosed =>
+      cases hfl : cfg.flushOnFail with
+      | false =>
+        have e1 : (wLock cfg s1) = { s1 with latest := 0, wpc := .backoff } := by simp [wLock, hf, hq, hfl]
+        rw [e1, wSends_noop cfg _ (by simp)]
+        simp [runFrom, step, wUnlock, wBackoffDone, wResub, hf]
+      | true =>
+        have h2 : Inv (wLock cfg s1) := inv_wLock cfg h1
+        have hw2 : (wLock cfg s1).wpc = .notifying := by simp [wLock, hf, hq, hfl]
+        have hl2 : (wLock cfg s1).wlocal.length = s1.pending.length := by simp [wLock, hf, hq, hfl]
+        have hb2 : (wLock cfg s1).wthenBackoff = true := by simp [wLock, hf, hq, hfl]
+        obtain ⟨a, b, c, d, e, f, _⟩ := wSends_spec cfg s1.pending.length h2 hw2 hl2
+        generalize runFrom cfg (wLock cfg s1) (List.replicate s1.pending.length .wSend) = s3 at a b c d e f
+        simp [runFrom, step, wUnlock, wBackoffDone, wResub, a, b, f, hb2]
+
 end Drand.Http
